@@ -152,7 +152,20 @@ class LogFormatter(logging.Formatter):
         json_part = parts.pop()
 
         try:
-            dirty_record = json.loads(json_part.encode("UTF8"))
+            # the message itself may contain the separator, so look for the longest
+            # tail of the record which is a JSON object
+            dirty_record = None
+            for split_at in range(len(parts) + 1):
+                try:
+                    candidate = json.loads("|".join(parts[split_at:] + [json_part]).encode("UTF8"))
+                except ValueError:
+                    continue
+                if isinstance(candidate, dict):
+                    dirty_record = candidate
+                    parts = parts[:split_at]
+                    break
+            if dirty_record is None:
+                raise ValueError("No JSON object in record")
             clean_record = self.clean_record(dirty_record)
             parts.append(" " + json.dumps(clean_record))
 
